@@ -34,7 +34,8 @@ mutual
         ShapeR G cfg (.prim op imms args) s k L
     | load {v s k L} : cfg.frameParams.find? (·.1 == v) = none → Blk G s [.load v] (.next k) →
         ShapeR G cfg (.load v) s k L
-    | loadF {v pr s k L} : cfg.frameParams.find? (·.1 == v) = some pr → ShapeR G cfg (.load v) s k L
+    | loadF {v pr s k L} : cfg.frameParams.find? (·.1 == v) = some pr → Blk G s [.frameDig pr.2] (.next k) →
+        ShapeR G cfg (.load v) s k L
     | retNone {s k L} : cfg.inSub = true → Blk G s [.retsub] (.next k) → ShapeR G cfg (.ret none) s k L
     | call {f args ce s cb k L} : cfg.callees.find? (·.id == f) = some ce →
         Blk G cb (callOps cfg f ce) (.next k) → ShapeRArgs G cfg args s cb L →
@@ -233,7 +234,7 @@ mutual
         rw [hf] at h
         simp only [] at h
         cases opBlock_ok h
-        exact Spec.emit_only (fun G _ => .loadF hf)
+        exact Spec.emit_only (fun G hb => .loadF hf hb)
     | .index v, k, L, g0, s, g1, h => by
       simp only [genR] at h
       cases opBlock_ok h
